@@ -5,7 +5,7 @@ from ..runner import Op
 
 ID = "C19"
 KINDS = {"U": ["layer_same", "layer_half", "layer_double", "encoder_stack", "decoder_stack", "shape_roundtrip", "bandwidth_ratio",
-               "total_power_differentiable", "average_power_differentiable", "additive_fixed_noise_differentiable", "fading_fixed_differentiable", "awgn_snr_differentiableAt"],
+               "total_power_differentiable", "total_power_hasFDerivAt", "total_power_fderiv_apply", "average_power_differentiable", "additive_fixed_noise_differentiable", "fading_fixed_differentiable", "awgn_snr_differentiableAt"],
          "K": ["seq_archs_ok", "all_layers_classified"], "R": ["seq_arch_shape"]}
 PARTIAL = ["gradient VALUES are autograd's: the theorems say that the real-valued stage models are differentiable (everywhere, resp. away from the zero signal in SNR mode); that torch's autograd "
            "computes those derivatives is trusted and cross-checked by central finite differences in float64 under a frozen RNG (a test), as is 'the loss gradient reaches every encoder parameter'",
@@ -297,6 +297,37 @@ def corr(ctx):
                     dev, detail, ok = float("inf"), "%s: %s" % (type(ex).__name__, str(ex)[:120]), False
                 ops.append(Op("gray 0", "0", nontrivial=True, info={"site": "gradients:%s" % sname, "config": {"complex": cplx, "shape": list(shape), "relative_deviation": dev, "detail": detail}}, prop_ok=ok))
                 ctx.count("gradient_cases")
+    # ---------------- power normalisation: autograd's Jacobian-vector product against the closed form proved in Lean
+    # (total_power_hasFDerivAt: Df(x).v = s v - s/(|x|^2+eps) <x,v> x, s = sqrt(P/(|x|^2+eps)); the per-sample form is the same with P.m, eps.m)
+    from kaira.constraints.power import TotalPowerConstraint as TPC, AveragePowerConstraint as APC
+    for cname, C, per_sample in (("TotalPowerConstraint", TPC(2.0), False), ("AveragePowerConstraint", APC(0.5), True)):
+        for cplx in (False, True):
+            for shape in ((3, 16), (1, 12), (2, 3, 4), (10,)):
+                g = torch.Generator().manual_seed(ctx.seed * 17 + len(shape) + 3)
+                x = torch.randn(shape, dtype=D, generator=g) * rng.choice([0.2, 1.0, 5.0])
+                v = torch.randn(shape, dtype=D, generator=g)
+                if cplx:
+                    x = torch.complex(x, torch.randn(shape, dtype=D, generator=g)); v = torch.complex(v, torch.randn(shape, dtype=D, generator=g))
+                try:
+                    _, jv = torch.autograd.functional.jvp(lambda t: C(t), (x,), (v,))
+                    P0 = float(C.total_power) if hasattr(C, "total_power") else float(C.average_power)
+                    items_x = x.reshape(1, -1) if x.dim() == 1 else x.reshape(x.shape[0], -1)
+                    items_v = v.reshape(items_x.shape)
+                    want = torch.zeros_like(items_x)
+                    for i in range(items_x.shape[0]):
+                        xi, vi = items_x[i], items_v[i]
+                        m_ = xi.numel()
+                        Pm, em = (P0 * m_, 1e-8 * m_) if per_sample else (P0, 1e-8)
+                        c_ = float((xi.abs() ** 2).sum())
+                        s_ = math.sqrt(Pm / (c_ + em))
+                        ip = float((xi.conj() * vi).real.sum()) if cplx else float((xi * vi).sum())
+                        want[i] = s_ * vi - (s_ / (c_ + em)) * ip * xi
+                    dev = float((jv.reshape(items_x.shape) - want).abs().max() / (want.abs().max() + 1e-30))
+                    ok = dev <= 1e-9
+                except Exception as ex:
+                    dev, ok = "%s: %s" % (type(ex).__name__, str(ex)[:100]), False
+                ops.append(Op("gray 0", "0", nontrivial=True, info={"site": "gradients:%s.closed_form" % cname, "config": {"complex": cplx, "shape": list(shape), "relative_deviation": dev, "detail": "autograd JVP vs the derivative proved in Lean"}}, prop_ok=ok))
+                ctx.count("closed_form_jvp")
     # ---------------- end to end: the loss gradient reaches every encoder parameter
     from kaira.models.deepjscc import DeepJSCCModel
     from kaira.channels import analog as A
